@@ -49,6 +49,9 @@ type Profile struct {
 	NoDecorPct     int  // percent of bars without any decorator (besides the row tag)
 	ChurnW         int  // weight of the macro "finish a bar, two render cycles, add the next bar" (one leaves, one joins between two frames)
 	PrioExtreme    bool // priorities from the whole int range now and then
+	PrioOnFinished bool // priority changes also on bars that have finished
+	StaticTexts    bool // one text per decorator
+	RepeatText     int  // weight of the macro "same text written in consecutive frames"
 	Faults         int  // percent of scenarios with one filler/extender fault
 	PtyRowsMax     int
 }
@@ -82,6 +85,9 @@ var decorTexts = []string{"", "a", "ab", "abc", "wide世", "世界", "xxxxxxxx",
 func genDecorSpec(t *rapid.T, prof *Profile, sync bool, side int) engine.DecorSpec {
 	d := engine.DecorSpec{Side: side}
 	n := rapid.IntRange(1, 3).Draw(t, "ntexts")
+	if prof.StaticTexts {
+		n = 1 // rows that do not change from frame to frame unless the bar does
+	}
 	for i := 0; i < n; i++ {
 		d.Texts = append(d.Texts, rapid.SampledFrom(decorTexts).Draw(t, "dtext"))
 	}
@@ -408,6 +414,9 @@ func genSteps(t *rapid.T, prof *Profile, sc *engine.Scenario) []engine.Step {
 			if prof.Prio {
 				cs = append(cs, choice{3, func() {
 					i := pickLive("priobar")
+					if prof.PrioOnFinished && len(term) > 0 && rapid.IntRange(0, 2).Draw(t, "prioterm") == 0 {
+						i = rapid.SampledFrom(term).Draw(t, "priotermbar") // a finished bar that may still be displayed
+					}
 					v := int64(rapid.IntRange(-3, 8).Draw(t, "priov"))
 					if prof.PrioExtreme && pct(t, 15, "extremepriov") {
 						v = int64(rapid.SampledFrom(extremePrios).Draw(t, "xpriov"))
@@ -480,6 +489,15 @@ func genSteps(t *rapid.T, prof *Profile, sc *engine.Scenario) []engine.Step {
 				body := rapid.StringMatching(`[a-z ]{0,30}`).Draw(t, "wbody")
 				steps = append(steps, engine.Step{Op: "write", Text: fmt.Sprintf("w0.%d:%s\n", wcount, body)})
 				wcount++
+			}})
+		}
+		if prof.RepeatText > 0 && sc.Cfg.Refresh != "none" && sc.Cfg.Refresh != "autort" {
+			cs = append(cs, choice{prof.RepeatText, func() {
+				txt := fmt.Sprintf("wR.%d:heartbeat\n", rapid.IntRange(0, 1).Draw(t, "rtext"))
+				n := rapid.IntRange(2, 4).Draw(t, "rcount")
+				for i := 0; i < n; i++ {
+					steps = append(steps, engine.Step{Op: "write", Text: txt}, engine.Step{Op: "tick"})
+				}
 			}})
 		}
 		if prof.Gets > 0 && len(any) > 0 {
